@@ -344,11 +344,12 @@ theorem encodeDHCP4_shape (b : Bytes) (a : EncArgs) (tail : List UInt8) (placed 
       (try have := c4 _ rfl) <;> (try have := y4 _ rfl) <;> omega
 
 /-- the room side condition is necessary: when header, written options and the end option do not fit the
-    packet buffer, `EncodeDHCP4` panics on the write of the end option -/
-theorem encodeDHCP4_panics_without_room (b : Bytes) (a : EncArgs) (tail : List UInt8) (placed : Bytes) (pos : Nat)
+    packet buffer, `EncodeDHCP4` returns nil (since fix 4da685d; before, the write of the end option was an index out
+    of range, which `dhcp4.ProcessPacket` reached with a NAK encoded in place in a tight request buffer) -/
+theorem encodeDHCP4_nil_without_room (b : Bytes) (a : EncArgs) (tail : List UInt8) (placed : Bytes) (pos : Nat)
     (hb : 300 ≤ b.length)
     (happ : appendOptions b.length (optSet a.opts 53 [a.mt]) a.order tail = .ok (placed, pos))
-    (hpos : b.length ≤ 240 + pos) : encodeDHCP4 b a tail = .panic := by
+    (hpos : b.length ≤ 240 + pos) : encodeDHCP4 b a tail = .ok [] := by
   unfold encodeDHCP4
   have h1 : ¬ b.length < 300 := by omega
   have h2 : 240 + pos ≥ b.length := hpos
@@ -358,7 +359,7 @@ theorem encodeDHCP4_panics_without_room (b : Bytes) (a : EncArgs) (tail : List U
 
 /-- **full round trip `ParseOptions (EncodeDHCP4 …) = opts ∪ {53 ↦ mt}` as equality of finite maps.**
     Side conditions (unique keys and the enumeration hypothesis: see `finding_keys_must_be_unique`,
-    `finding_tail_must_enumerate`; encodability: `roundtrip_needs_wf`; room: `encodeDHCP4_panics_without_room`;
+    `finding_tail_must_enumerate`; encodability: `roundtrip_needs_wf`; room: `encodeDHCP4_nil_without_room`;
     beyond 1024 bytes the scratch buffer write panics or `copy` truncates): the caller's map has unique keys;
     every entry other than a caller-supplied 53 (which is overridden) has a code other than 0 (pad) and 255
     (end) and a value of at most 255 bytes (zero-length values are fine); the encoding of the map with 53 set
